@@ -23,6 +23,36 @@ STRENGTHENED = {
                       "a history (none / earlier simulate / simulate+clear) and a refuted wrong reporter instance",
     "C16-mut_C16-m1": "missed at first (position expansion of a compound with coefficient 2 and 2 positions); new family `doubled`",
     "C06-mut_C11-m2": "the C06 check did not catch this C11-targeted change at first; caught after the corpus extension",
+    # ---- round 2 (subtler changes; authors knew what round 1 had done) -------------------------------------------
+    "C01-mut_C01-r2m1": "an edit-history defect (lost invalidation in update_reaction): outside what C01 exercises (no edits); "
+                        "caught by C03, see C03-mut_C01-r2m1",
+    "C01-mut_C01-r2m2": "missed at first (a surrogate flux's computed coefficient overwrote the variable's other computed "
+                        "coefficients); ModelEval's surrogate stoichiometry menu got state/time-dependent coefficients",
+    "C02-mut_C02-r2m2": "missed at first by C02 (caught by C13 and C01): C02 now also evaluates scenarios with a component rendered "
+                        "as an assignment-defined variable at a supplied state (DepSort `Given`)",
+    "C03-mut_C03-r2m1": "missed at first (get_stoichiometries wrote into the cached table); ModelEdit got state/time-dependent "
+                        "coefficients and the stoichiometry table as a query (asked first)",
+    "C06-mut_C06-r2m1": "missed at first (chained assignment bound its first target only); Chain statement in the core + corpus",
+    "C06-mut_C06-r2m2": "missed at first (module constants cached per module); oracle runs a second pass after re-binding constants",
+    "C06-mut_C07-r2m2": "missed at first (KNOWN_FNS rows applied to symbolic arguments); every row of the table is now exercised - "
+                        "which exposed a genuine defect (np.positive -> Abs, fixed 95400b8)",
+    "C07-mut_C07-r2m2": "missed at first by C07; FnLib got the optional-translatable `cap` (np.minimum)",
+    "C08-mut_C08-m2":  "a session defect (generated source keyed by file stem; re-export of the model imported first): outside C08's "
+                        "single round trip; caught by C17 after SbmlSession got Export, see C17-mut_C08-m2",
+    "C17-mut_C08-m2":  "missed at first; SbmlSession got Export(model_i) and twin documents (same layout, other meaning)",
+    "C09-mut_C09-r2m2": "missed at first (y0 re-applied after the Monte-Carlo row); ParMap got the y0 argument (row > y0 > model)",
+    "C11-mut_C11-r2m2": "missed at first (non-simultaneous renaming): fnlib formal parameters now coincide with model names",
+    "C13-mut_C13-r2m1": "an edit-history defect (update_variable keeping the cache): outside what C13 exercises; caught by C03, see "
+                        "C03-mut_C13-r2m1",
+    "C14-mut_C14-r2m1": "missed at first (computed views cached across a continuation); read op realised by touching the views",
+    "C14-mut_C14-r2m2": "missed at first (first requested point within 1e-5*t of a boundary dropped); epsilon component of time and a "
+                        "LARGE rendering (tick 512 s)",
+    "C15-mut_C15-r2m1": "missed at first (NaN norm counted as converged); SteadyLoop got undefined norms (0/0, overflow)",
+    "C15-mut_C15-r2m2": "missed at first by C15 (caught by C10); two-run history with per-point flux balance",
+    "C18-mut_C18-r2m1": "missed at first (state re-derived after each displacement); network with assignment-defined initial values",
+    "C19-mut_C19-r2m2": "missed at first (lru_cache on the loader); in-process histories Run/Rerun/ClearCache/Mutate, RightResults",
+    "C20-mut_C20-r2m1": "missed at first (parameter labels sorted in the minimiser); fits with non-alphabetical p0, first Eval = p0",
+    "C20-mut_C20-r2m2": "missed at first (loss arguments swapped in the unscaled branch); Law3 fixes the orientation of asymmetric losses",
 }
 rows = []
 for d in sorted(p for p in root.iterdir() if p.is_dir()):
